@@ -81,6 +81,11 @@ def run(chk):
                 if not fault and rng.random() < 0.6:
                     sg["top truncation"] = [float(round(rng.uniform(-2e4, 1e4))), float(round(rng.uniform(0.4, 0.9) * min(sg["thickness"])))]
             f.update(g.slab_models(f["model"], 1.0, False))
+            if f.get("sections") and rng.random() < 0.4:
+                # the feature pinches out laterally: zero thickness at one coordinate
+                for sg in rng.choice(f["sections"])["segments"]:
+                    sg["thickness"] = [0.0]
+                    sg.pop("top truncation", None)
             for sc in f.get("sections", []):
                 for k in KINDS:
                     sc.pop(k, None)
